@@ -3,6 +3,7 @@
 import os, re
 here = os.path.dirname(os.path.abspath(__file__))
 tmpl = open(os.path.join(here, "nd_adapter.tmpl")).read()
+h5tmpl = open(os.path.join(here, "h5_adapter.tmpl")).read()
 TYPES = [  # Name, Go element type, C storage element type (as Go type), has whole-array helpers
     ("Float64", "float64", "float64", True), ("Float32", "float32", "float32", True),
     ("Int32", "int32", "int32", True), ("Uint32", "uint32", "uint32", True),
@@ -19,5 +20,9 @@ for name, elem, celem, helpers in TYPES:
     s = s.replace("//NOHELPERS-BEGIN\n", "").replace("//NOHELPERS-END\n", "")
     s = s.replace("TYPENAME", elem).replace("CELEM", celem).replace("ELEM", elem).replace("NAME", name)
     with open(os.path.join(here, "..", "cmd", "vh", "nd_gen_%s.go" % name.lower()), "w") as f:
+        f.write(s)
+for name, elem, celem, helpers in TYPES:
+    s = h5tmpl.replace("TYPENAME", elem).replace("ELEM", elem).replace("NAME", name)
+    with open(os.path.join(here, "..", "cmd", "vh", "h5_gen_%s.go" % name.lower()), "w") as f:
         f.write(s)
 print("generated", len(TYPES))
